@@ -30,6 +30,11 @@ TRUSTED = []
 PROGRAM = "abasic_core::program::Program"
 
 
+def call_names_deep_fn(F, body):
+    from lib import with_closures
+    return {c.callee.split("::")[-1] for b in with_closures(F, body) for c in b.calls()}
+
+
 def run(ck, F, E):
     # ---- (1) DATA order and cursor
     di = get_fn(ck, F, "ProgramLines::data_iterator")
@@ -86,6 +91,29 @@ def run(ck, F, E):
                    "RESTORE dispatches to reset_data_cursor", "RESTORE does %s" % disp.get("Restore"))
         ck.require(disp.get("Data", {}).get("effect") == "Ok" and disp.get("Remark", {}).get("effect") == "Ok", "C03:DATA:data-is-noop",
                    "DATA in line order", "DATA and REM are no-ops when executed", "executing DATA/REM does %s / %s" % (disp.get("Data"), disp.get("Remark")))
+
+    # READ fills its targets one by one: `READ I, A(I)` subscripts A with the I just read.  Every trip round a loop of the READ
+    # statement that parses a target also takes an item and assigns it (a first pass that collects all the targets evaluates
+    # every subscript with the values from before the READ).
+    from lib import iteration_paths, with_closures
+    rd = get_fn(ck, F, "StatementEvaluator::evaluate_read_statement")
+    if rd is not None:
+        trips = 0
+        bad_trips = 0
+        for b2 in with_closures(F, rd):
+            for path in iteration_paths(b2):
+                names = [b2.call_at(x).callee.split("::")[-1] for x in path if b2.call_at(x) is not None]
+                if "parse_lvalue" in names:
+                    trips += 1
+                    if "assign_value" not in names or "next_data_element" not in names:
+                        bad_trips += 1
+        all_names = call_names_deep_fn(F, rd)
+        ck.require(bad_trips == 0 and (trips > 0 or not rd.natural_loops()) and "parse_lvalue" in all_names and "assign_value" in all_names,
+                   "C03:READ:target-by-target", "READ consumes DATA items in order",
+                   "%d loop trip(s) parse a target; each also takes the next item and assigns it before the next target is parsed" % trips,
+                   "evaluate_read_statement parses READ targets in a loop trip that does not assign (%d of %d trips): the subscripts of "
+                   "later targets are evaluated before earlier targets have been read, so `READ I, A(I)` stores into the cell for the "
+                   "old I" % (bad_trips, trips), rd.span)
 
     # ---- (2) limit and step fixed at entry
     for f in ("to_value", "step_value", "location", "symbol"):
